@@ -310,8 +310,8 @@ PROPS = {
         'families': [{'name': 'serial', 'shards': {'quick': 8, 'thorough': 16}, 'seeds': {'quick': 1, 'thorough': 3}},
                      {'name': 'serialexh', 'shards': {'quick': 8, 'thorough': 16}}],
         'kinds': ['ser:*', 'roots', 'pos', 'hash', 'prove', 'count', 'cachedcount', 'modifyfail', 'undofail', 'ph:ser:*'],
-        'lean_modules': ['UtreexoVerif.Props.C13', 'UtreexoVerif.Props.C13b', 'UtreexoVerif.Props.C13Heap'],
-        'theorems': ['UtreexoVerif.Props.C13Heap.' + t for t in ['writeToH_refines', 'writeToH_sink_ok', 'writeToH_sink_fail', 'encodePollard_equiv', 'restoreH_count', 'restoreH_total', 'restoreH_parse_fail', 'restoreH_refines', 'noMiniCollision_encode', 'restoreH_roundtrip', 'restoreH_roundtrip_shape', 'restoreH_prefix', 'restore_write_behaves_identically', 'delsOK_modify', 'restored_modify_agrees', 'restored_queries_agree', 'writeToH_same', 'restorePollard_leafRecs', 'Example.restoreH_agrees_statement_false']] + ['UtreexoVerif.Props.C13.' + t for t in ['C13', 'C13_bytes32', 'okBytes32', 'readFull_chunking', 'pollard_roundtrip', 'pollard_size',
+        'lean_modules': ['UtreexoVerif.Props.C13', 'UtreexoVerif.Props.C13b', 'UtreexoVerif.Props.C13Heap', 'UtreexoVerif.Props.C13Map', 'UtreexoVerif.Props.C13MapNote'],
+        'theorems': ['UtreexoVerif.Props.C13Map.' + t for t in ['map_restored_bisim', 'map_restored_bisim_bytes32', 'map_restored_behaves_identically', 'map_restored_behaves_identically_full', 'inv_write_read', 'finv_write_read', 'sinv_write_read', 'C09_reach_ser', 'C09_reach_full_ser', 'lookups_reach_ser', 'lookups_reach_full_ser', 'twin_queries', 'twin_step', 'lockstep', 'twinF_queries', 'lockstepF', 'read_ok_sane', 'cr_hashBytesOK_incompatible']] + ['UtreexoVerif.Proofs.SerialMapInv.' + t for t in ['read_write', 'restore_equiv', 'Inv_congr', 'FInv_congr', 'SInv_congr', 'read_into_used']] + ['UtreexoVerif.Proofs.MapSim.' + t for t in ['sim_call', 'trace_equiv', 'observe_equiv']] + ['UtreexoVerif.Props.C13Map.restored_bisim'] + ['UtreexoVerif.Props.C13Heap.' + t for t in ['writeToH_refines', 'writeToH_sink_ok', 'writeToH_sink_fail', 'encodePollard_equiv', 'restoreH_count', 'restoreH_total', 'restoreH_parse_fail', 'restoreH_refines', 'noMiniCollision_encode', 'restoreH_roundtrip', 'restoreH_roundtrip_shape', 'restoreH_prefix', 'restore_write_behaves_identically', 'delsOK_modify', 'restored_modify_agrees', 'restored_queries_agree', 'writeToH_same', 'restorePollard_leafRecs', 'Example.restoreH_agrees_statement_false']] + ['UtreexoVerif.Props.C13.' + t for t in ['C13', 'C13_bytes32', 'okBytes32', 'readFull_chunking', 'pollard_roundtrip', 'pollard_size',
                      'pollard_prefix', 'pollard_sink_ok', 'pollard_sink_fail', 'pollard_chunking', 'pollard_total',
                      'wire_leaves_perm', 'map_roundtrip', 'map_prefix', 'map_sink_ok', 'map_sink_fail', 'map_chunking',
                      'map_total', 'map_read_into_used_receiver']] +
